@@ -81,6 +81,10 @@ def is_dependent(t):
     return False
 
 
+def _operand(t):
+    return t if isinstance(t, str) else normalize_type(t, None)
+
+
 class DependentType(type):
     exclusive_type = False
     keyable_type = False
@@ -141,17 +145,20 @@ class DependentType(type):
     def __lt__(self, other):
         return False
 
+    # The other operand means what it means as an annotation (Literal[...] is
+    # a value-dependent type, None is NoneType, ...)
+
     def __and__(self, other):
-        return Intersection[self, other]
+        return Intersection[self, _operand(other)]
 
     def __rand__(self, other):
-        return Intersection[other, self]
+        return Intersection[_operand(other), self]
 
     def __or__(self, other):
-        return Union[self, other]
+        return Union[self, _operand(other)]
 
     def __ror__(self, other):
-        return Union[other, self]
+        return Union[_operand(other), self]
 
     __repr__ = __str__ = clsstring
 
